@@ -12,7 +12,7 @@ C01 — executable model of reamberPy's osu!mania reader / writer, *as written*:
   reamber/osu/lists/*                 read = [read_string(s) for s in strings]
 
 Numbers are exact rationals.  The model is fed the exact value of every double the implementation holds.
-Float *rendering* (`repr`, `:g`) and `unidecode` are parameters: the writer emits tokens (`Tok`) and a
+Float *rendering* (`repr`) and `unidecode` are parameters: the writer emits tokens (`Tok`) and a
 `Render` turns them into characters (DESIGN §5 K3).  Integers are rendered by the model itself (`showInt`).
 -/
 import Reamber.Model.OsuLex
@@ -386,7 +386,7 @@ inductive Tok where
   | lit (s : Str)        -- literal characters / a string attribute as it is
   | int (i : Int)        -- `str(int)` — rendered by the model (`showInt`)
   | repr (q : Rat)       -- `f"{x}"` of a float: Python's `repr` (parameter)
-  | g (q : Rat)          -- `f"{x:g}"` (parameter)
+  | num (q : Rat)        -- `_num(x)`: `str(int(x))` when integral (rendered by the model), else `repr(float(x))`
   | uni (s : Str)        -- `unidecode(s)` (parameter)
 deriving Repr, DecidableEq, Inhabited
 
@@ -395,14 +395,13 @@ abbrev TLine := List Tok
 /-- the parameters of the text layer -/
 structure Render where
   repr : Rat → Str
-  g : Rat → Str
   uni : Str → Str
 
 def Render.tok (R : Render) : Tok → Str
   | .lit s => s
   | .int i => showInt i
   | .repr q => R.repr q
-  | .g q => R.g q
+  | .num q => if q.den = 1 then showInt q.num else R.repr q
   | .uni s => R.uni s
 
 def Render.line (R : Render) (l : TLine) : Str := (l.map R.tok).flatten
@@ -444,7 +443,7 @@ def writeMeta (m : Meta) : List TLine :=
   [ [L "osu file format v14"], [],
     [L "[General]"],
     [L "AudioFilename: ", .lit m.audioFileName],
-    [L "AudioLeadIn: ", .g m.audioLeadIn],
+    [L "AudioLeadIn: ", .num m.audioLeadIn],
     [L "PreviewTime: ", .int (pyTrunc m.previewTime)],
     [L "Countdown: ", .int (boolInt m.countdown)],
     [L "SampleSet: ", .lit (sampleSetToString m.sampleSet)],
@@ -455,10 +454,10 @@ def writeMeta (m : Meta) : List TLine :=
     [L "WidescreenStoryboard: ", .int (boolInt m.widescreenStoryboard)],
     [],
     [L "[Editor]"],
-    [L "DistanceSpacing: ", .g m.distanceSpacing],
-    [L "BeatDivisor: ", .g m.beatDivisor],
-    [L "GridSize: ", .g m.gridSize],
-    [L "TimelineZoom: ", .g m.timelineZoom],
+    [L "DistanceSpacing: ", .num m.distanceSpacing],
+    [L "BeatDivisor: ", .num m.beatDivisor],
+    [L "GridSize: ", .num m.gridSize],
+    [L "TimelineZoom: ", .num m.timelineZoom],
     [],
     [L "[Metadata]"],
     [L "Title:", .uni m.title],
@@ -473,12 +472,12 @@ def writeMeta (m : Meta) : List TLine :=
     [L "BeatmapSetID:", .int m.beatmapSetId],
     [],
     [L "[Difficulty]"],
-    [L "HPDrainRate:", .g m.hpDrainRate],
-    [L "CircleSize:", .g m.circleSize],
-    [L "OverallDifficulty:", .g m.overallDifficulty],
-    [L "ApproachRate:", .g m.approachRate],
-    [L "SliderMultiplier:", .g m.sliderMultiplier],
-    [L "SliderTickRate:", .g m.sliderTickRate],
+    [L "HPDrainRate:", .num m.hpDrainRate],
+    [L "CircleSize:", .num m.circleSize],
+    [L "OverallDifficulty:", .num m.overallDifficulty],
+    [L "ApproachRate:", .num m.approachRate],
+    [L "SliderMultiplier:", .num m.sliderMultiplier],
+    [L "SliderTickRate:", .num m.sliderTickRate],
     [],
     [L "[Events]"],
     [L "//Background and Video events"],
